@@ -45,10 +45,10 @@ func c17Genesis() harness.Genesis {
 		Params:       vtypes.Params{Denom: harness.Denom},
 		VestingTypes: []vtypes.GenesisVestingType{{Name: "t", LockupPeriod: 0, LockupPeriodUnit: "second", VestingPeriod: 60, VestingPeriodUnit: "second", Free: sdk.NewDecWithPrec(5, 1)}},
 		AccountVestingPools: []*vtypes.AccountVestingPools{{Owner: harness.AddrS("A"), VestingPools: []*vtypes.VestingPool{
-			{Name: "g", VestingType: "t", LockStart: harness.T0, LockEnd: harness.T0.Add(50 * time.Second), InitiallyLocked: sdk.NewInt(40), Withdrawn: sdk.ZeroInt(), Sent: sdk.ZeroInt(), GenesisPool: true},
-			{Name: "o", VestingType: "t", LockStart: harness.T0, LockEnd: harness.T0.Add(50 * time.Second), InitiallyLocked: sdk.NewInt(40), Withdrawn: sdk.ZeroInt(), Sent: sdk.ZeroInt(), GenesisPool: false},
+			{Name: "g", VestingType: "t", LockStart: harness.T0, LockEnd: harness.T0.Add(41 * time.Second), InitiallyLocked: sdk.NewInt(40), Withdrawn: sdk.ZeroInt(), Sent: sdk.ZeroInt(), GenesisPool: true},
+			{Name: "o", VestingType: "t", LockStart: harness.T0, LockEnd: harness.T0.Add(41 * time.Second), InitiallyLocked: sdk.NewInt(40), Withdrawn: sdk.ZeroInt(), Sent: sdk.ZeroInt(), GenesisPool: false},
 			// a genesis pool that comes after an ordinary pool of the same owner
-			{Name: "g2", VestingType: "t", LockStart: harness.T0, LockEnd: harness.T0.Add(50 * time.Second), InitiallyLocked: sdk.NewInt(40), Withdrawn: sdk.ZeroInt(), Sent: sdk.ZeroInt(), GenesisPool: true}}}},
+			{Name: "g2", VestingType: "t", LockStart: harness.T0, LockEnd: harness.T0.Add(41 * time.Second), InitiallyLocked: sdk.NewInt(40), Withdrawn: sdk.ZeroInt(), Sent: sdk.ZeroInt(), GenesisPool: true}}}},
 		VestingAccountTraces: []vtypes.VestingAccountTrace{
 			{Id: 0, Address: harness.AddrS("GA"), Genesis: true},
 			{Id: 1, Address: harness.AddrS("NA")},
@@ -71,6 +71,15 @@ func c17Events(thorough bool) []Ev {
 			return vtypes.NewMsgSendToVestingAccount(harness.AddrS("A"), to, pool, sdk.NewInt(8), true), "A"
 		}})
 	}
+	// without restart the new account starts and ends at the pool's lock end (41 s = block+40s, block+1s):
+	// a cliff, fully locked up to and including that instant
+	evs = append(evs, Ev{Name: "send(A.g,8->fresh,no-restart)", Build: func(v View) (sdk.Msg, string) {
+		_, to := freshAddr(v)
+		if to == "" {
+			return nil, ""
+		}
+		return vtypes.NewMsgSendToVestingAccount(harness.AddrS("A"), to, "g", sdk.NewInt(8), false), "A"
+	}})
 	srcs := []string{"GA", "NA", "UA", "R1", "R2"}
 	if thorough {
 		srcs = append(srcs, "R3", "R4")
